@@ -715,20 +715,26 @@ func judge(en *entry, ru rule, pts []point, pr *probe) (out []finding) {
 				fn = caller
 			}
 		}
-		var others []string
-		seen := map[string]bool{fn: true}
-		for _, h := range bad[1:] {
-			g := declFunc(h.u)
-			if !seen[g] && len(others) < 6 {
-				seen[g] = true
-				others = append(others, g)
-			}
-		}
-		if len(others) > 0 {
-			msg += "; further super-linear blocks in " + strings.Join(others, ", ")
-		}
 		msg += "; " + describe("total block count", tot) + "; " + describe("allocated bytes", all)
 		out = append(out, finding{"superlinear:" + en.name + ":" + fn, fn, msg})
+		// Further functions of the library that contain a steep block of their own are separate
+		// culprits (an inner loop lives in one function): the next two hottest are reported too,
+		// so that a new defect is not hidden behind a known one.  Not for explosive growth, where
+		// every function on the recursion grows.
+		seen := map[string]bool{fn: true}
+		if ru.steps == doublings.steps {
+			for _, h := range bad[1:] {
+				g := declFunc(h.u)
+				if seen[g] || !meta.funcs[meta.units[h.u].fn].lib {
+					continue
+				}
+				seen[g] = true
+				if len(out) < 3 {
+					out = append(out, finding{"superlinear:" + en.name + ":" + g, g,
+						describe("execution count of basic block "+unitPos(h.u)+" in "+g, blk(h.u))})
+				}
+			}
+		}
 		if allBad && allocFn != "" && allocFn != fn && !seen[allocFn] {
 			// a second, independent culprit: the allocation that grows is made elsewhere
 			out = append(out, finding{"superlinear:" + en.name + ":" + allocFn, allocFn,
